@@ -206,7 +206,13 @@ func (w *world) doOp(tw *tracefmt.Writer, name string, o op, mine *string) {
 		}
 	case "applyif":
 		exp := *mine
-		if o.E != "mine" {
+		switch o.E {
+		case "mine":
+		case "empty": // no version at all: not the current version
+			exp = ""
+		case "prefix": // a truncated copy of the current version: not the current version either
+			exp = exp[:len(exp)/2]
+		default:
 			exp = o.E // "junk", or a literal (stale) version
 		}
 		tw.Emit(tracefmt.Rec{"ev": "call", "thread": name, "op": "applyif", "cand": o.C, "exp": exp})
@@ -372,9 +378,13 @@ func TestLiveConfig(t *testing.T) {
 				o.Op = "apply"
 			default:
 				o.Op = "applyif"
-				switch rng.Intn(4) {
+				switch rng.Intn(6) {
 				case 0:
 					o.E = "junk"
+				case 4:
+					o.E = "empty"
+				case 5:
+					o.E = "prefix"
 				case 1:
 					o.E = seen[rng.Intn(len(seen))] // possibly stale
 				default:
